@@ -1,8 +1,161 @@
 package main
 
-import "fmt"
+import (
+	"bytes"
+	"fmt"
+	"os"
+	"os/exec"
+	"path/filepath"
+	"sort"
+	"strings"
+	"sync"
+)
 
+// cmdSelftest demonstrates detection: every mutants/<PROPS>__<name>.diff is a
+// realistic property-breaking change. For each one a scratch git worktree of
+// the repository is created outside /repo and /verif, the diff applied, the
+// repository's own test-suite run on it (it must still pass, otherwise the
+// mutant is marked "suite-kills" and is not evidence of anything), and the
+// quick check of each property named in the file name is run against the
+// scratch tree: it must exit 1 with a VIOLATION line. PROPS is one or more
+// property ids joined by '+'. Nothing is applied to /repo itself.
+//
+//	vcheck selftest [--only substr] [--tier quick|thorough] [-j N]
 func cmdSelftest(args []string) int {
-	fmt.Println("selftest: see mutants.go")
+	only, tier, par := "", "quick", 3
+	for i := 0; i < len(args); i++ {
+		switch args[i] {
+		case "--only":
+			i++
+			only = args[i]
+		case "--tier":
+			i++
+			tier = args[i]
+		case "-j":
+			i++
+			fmt.Sscan(args[i], &par)
+		}
+	}
+	files, _ := filepath.Glob(filepath.Join(home(), "mutants", "*.diff"))
+	seeded, _ := filepath.Glob(filepath.Join(home(), "seeded", "*", "patch.diff"))
+	files = append(files, seeded...)
+	sort.Strings(files)
+	type res struct{ name, status string }
+	var results []res
+	var mu sync.Mutex
+	sem := make(chan struct{}, par)
+	var wg sync.WaitGroup
+	for i, f := range files {
+		name := strings.TrimSuffix(filepath.Base(f), ".diff")
+		if filepath.Base(f) == "patch.diff" {
+			name = filepath.Base(filepath.Dir(f))
+		}
+		if only != "" && !strings.Contains(name, only) {
+			continue
+		}
+		parts := strings.SplitN(name, "__", 2)
+		props := strings.Split(parts[0], "+")
+		wg.Add(1)
+		go func(i int, f, name string, props []string) {
+			defer wg.Done()
+			sem <- struct{}{}
+			defer func() { <-sem }()
+			st := runMutant(i, f, props, tier)
+			mu.Lock()
+			results = append(results, res{name, st})
+			mu.Unlock()
+			fmt.Printf("%-70s %s\n", name, st)
+		}(i, f, name, props)
+	}
+	wg.Wait()
+	sort.Slice(results, func(i, j int) bool { return results[i].name < results[j].name })
+	bad := 0
+	var sb strings.Builder
+	sb.WriteString("# selftest results (" + tier + ")\n\n| mutant | result |\n|---|---|\n")
+	for _, r := range results {
+		sb.WriteString("| " + r.name + " | " + r.status + " |\n")
+		if !strings.HasPrefix(r.status, "DETECTED") && !strings.HasPrefix(r.status, "suite-kills") {
+			bad++
+		}
+	}
+	if only == "" {
+		os.WriteFile(filepath.Join(home(), "mutants", "RESULTS-"+tier+".md"), []byte(sb.String()), 0o644)
+	}
+	if bad > 0 {
+		fmt.Printf("selftest: %d mutant(s) not detected\n", bad)
+		return 1
+	}
+	fmt.Println("selftest: all mutants detected")
 	return 0
+}
+
+func runMutant(i int, diff string, props []string, tier string) string {
+	dir := fmt.Sprintf("/tmp/vmut-%d-%d", os.Getpid(), i)
+	defer func() {
+		exec.Command("git", "-C", "/repo", "worktree", "remove", "--force", dir).Run()
+		os.RemoveAll(dir)
+		for _, p := range props {
+			os.RemoveAll(filepath.Join(home(), ".build", p+"-"+strings.NewReplacer("/", "_").Replace(dir)))
+		}
+	}()
+	if out, err := exec.Command("git", "-C", "/repo", "worktree", "add", "--detach", "-f", dir, "HEAD").CombinedOutput(); err != nil {
+		return "ERROR worktree: " + string(out)
+	}
+	if out, err := exec.Command("git", "-C", dir, "apply", "--whitespace=nowarn", diff).CombinedOutput(); err != nil {
+		return "ERROR patch does not apply: " + strings.TrimSpace(string(out))
+	}
+	t := exec.Command("go", "test", "-vet=off", "-count=1", "./...")
+	t.Dir = dir
+	t.Env = goEnv()
+	if out, err := t.CombinedOutput(); err != nil {
+		return "suite-kills (the repository's own tests fail on this change): " + lastLine(string(out))
+	}
+	var statuses []string
+	detected := false
+	for _, p := range props {
+		self, _ := os.Executable()
+		cmd := exec.Command(self, p, "--tier", tier, "--no-evidence")
+		cmd.Env = append(os.Environ(), "VERIF_REPO="+dir, "VERIF_BUILD_TAG="+fmt.Sprint(i))
+		var ob bytes.Buffer
+		cmd.Stdout, cmd.Stderr = &ob, &ob
+		err := cmd.Run()
+		code := 0
+		if ee, ok := err.(*exec.ExitError); ok {
+			code = ee.ExitCode()
+		}
+		hasV := strings.Contains(ob.String(), "VIOLATION property="+p)
+		switch {
+		case code == 1 && hasV:
+			detected = true
+			statuses = append(statuses, p+":VIOLATION("+firstSig(ob.String())+")")
+		case code == 0:
+			statuses = append(statuses, p+":silent")
+		default:
+			statuses = append(statuses, fmt.Sprintf("%s:exit%d(%s)", p, code, lastLine(ob.String())))
+		}
+	}
+	if detected {
+		return "DETECTED " + strings.Join(statuses, " ")
+	}
+	return "MISSED " + strings.Join(statuses, " ")
+}
+
+func lastLine(s string) string {
+	l := strings.Split(strings.TrimSpace(s), "\n")
+	x := l[len(l)-1]
+	if len(x) > 160 {
+		x = x[:160]
+	}
+	return x
+}
+
+func firstSig(s string) string {
+	for _, l := range strings.Split(s, "\n") {
+		l = strings.TrimSpace(l)
+		if strings.HasPrefix(l, "sig=") {
+			f := strings.Fields(l)
+			return strings.TrimPrefix(f[0], "sig=")
+		}
+	}
+	return "?"
 }
